@@ -225,6 +225,9 @@ def run_property(prop, tier, seed, shrink=True):
     known_lines, new, excluded = F.classify(prop, failures, kf)
     for line in known_lines:
         print(line)
+    if os.environ.get("VERIF_SAVE_KNOWN"):     # maintenance aid: refresh committed replays
+        for sig in excluded:
+            F.write_replay(prop, sig, failures[sig]["case"], failures[sig]["msg"])
 
     violations = 0
     out_lines = []
